@@ -68,13 +68,16 @@ func caseFeatures(c Case, e *Expect) []string {
 	var out []string
 	perFam := map[string]int{}
 	delayed := false
-	payload, bareArgs, bareArgsThenSet := false, false, false
+	payload, bareArgs, bareArgsThenSet, equalHook := false, false, false, false
 	for _, s := range c.Chain {
 		if s.DelayMs > 0 {
 			delayed = true
 		}
 		for _, op := range s.Ops {
 			payload = payload || op.Payload
+			if op.Fam == "hook" && (op.ValOf == "rt" || (len(op.ValOf) == 2 && op.ValOf[0] == 'p')) {
+				equalHook = true
+			}
 			if op.Fam == "args" && c.Kind == "create" {
 				if op.Act == "del" {
 					bareArgs = true
@@ -98,6 +101,9 @@ func caseFeatures(c Case, e *Expect) []string {
 	}
 	if payload {
 		out = append(out, "removal_marker_carrying_a_whole_entry")
+	}
+	if equalHook {
+		out = append(out, "hook_equal_to_another_partys")
 	}
 	if bareArgs {
 		out = append(out, "bare_command_line_override_marker")
